@@ -74,7 +74,7 @@ func runC12(c *core.Ctx) {
 				}
 				s := mkSlice(n, spare, 0)
 				orig := append([]int(nil), s...)
-				ins := mkSlice(m, 0, 50000)
+				ins := mkSlice(m, (m+idx)%3, 50000) // 0..2 elements of spare capacity on the argument
 				insSnap := append([]int(nil), ins...)
 				want := append(append(append([]int{}, orig[:idx]...), ins...), orig[idx:]...)
 				if p, pv := core.Catch(func() { slices.InsertSlice(&s, idx, ins) }); p {
@@ -89,6 +89,12 @@ func runC12(c *core.Ctx) {
 				if !eqSlice(ins, insSnap) {
 					fail("InsertSlice:modified-argument", "the inserted slice was modified", nil)
 					return false
+				}
+				for i, v := range ins[:cap(ins)][len(ins):] {
+					if v != sentinel-(len(ins)+i) {
+						fail("InsertSlice:wrote-into-argument-capacity", fmt.Sprintf("InsertSlice(len=%d index=%d, %d values with spare capacity) wrote into the spare capacity of the inserted slice", n, idx, m), nil)
+						return false
+					}
 				}
 			}
 		}
@@ -274,9 +280,12 @@ func runC12(c *core.Ctx) {
 	if r.Chance(1, 2) {
 		n = r.Range(0, 64)
 	}
-	if c.Index%100 == 91 {
+	if c.Index%100 == 91 && c.Mode != "par" {
 		n = r.Range(65536, 140000) // beyond 2^16 (and sometimes 2^17) elements
 		c.Count("slices_beyond_65536_elements", 1)
+		if !fillRepeat(c, r.Range(65537, 200000)) || !reverseCheck(c, r.Range(65537, 200000)) {
+			return
+		}
 	}
 	spare := r.Intn(40)
 	if !spliceAll(n, spare, true) {
@@ -363,7 +372,33 @@ func typedSplice[T comparable](c *core.Ctx, tname string, val func(i int) T) boo
 			if !eqSlice(ins, insSnap) {
 				return fail("InsertSlice:modified-argument", "the inserted slice was modified")
 			}
+			for j, v := range ins[:cap(ins)][len(ins):] {
+				if v != val(900000+len(ins)+j) {
+					return fail("InsertSlice:wrote-into-argument-capacity", "InsertSlice wrote into the spare capacity of the inserted slice")
+				}
+			}
 			c.Count("typed_insertslice", 1)
+		}
+		// InsertSlice where the inserted values and the target are carved from ONE buffer
+		// (values = buf[:k], target = buf[k:k+m]): the target lies in the spare capacity of
+		// the argument
+		{
+			k, m := r.Range(1, 3), r.Range(1, 5)
+			buf := make([]T, k+m+6)
+			for i := range buf {
+				buf[i] = val(300 + i)
+			}
+			vals, tgt := buf[:k], buf[k:k+m]
+			sv, st := append([]T(nil), vals...), append([]T(nil), tgt...)
+			at := r.Intn(m + 1)
+			want := append(append(append([]T{}, st[:at]...), sv...), st[at:]...)
+			if p, pv := core.Catch(func() { slices.InsertSlice(&tgt, at, vals) }); p {
+				return fail("InsertSlice:panic", fmt.Sprintf("InsertSlice with values and target carved from one buffer panicked: %v", pv))
+			}
+			if !eqSlice(tgt, want) {
+				return fail("InsertSlice:contents[one-buffer]", fmt.Sprintf("InsertSlice(target=buf[%d:%d], index=%d, values=buf[:%d]): got %s want %s", k, k+m, at, k, short(tgt), short(want)))
+			}
+			c.Count("typed_insertslice_one_buffer", 1)
 		}
 		// Remove / RemoveSlice
 		if n > 0 {
